@@ -207,6 +207,7 @@ class Gen:
 class Verdict:
     def __init__(self):
         self.mism, self.specv, self.known_seen, self.unknown = [], [], {}, []
+        self.known_count = {}
         self.evals = 0
         self.unmodelled = 0
         self.pending = []     # (opts, p, q, strings, idxs, code, spec, flags) awaiting the bash opinion
@@ -258,10 +259,16 @@ class Verdict:
                             break
                 if kid:
                     rec["known"] = kid
-                    self.known_seen.setdefault(kid, []).append(rec)
-                else:
+                    self.note_known(kid, rec)
+                elif len(self.unknown) < 500:
                     self.unknown.append(rec)
         self.pending = []
+
+    def note_known(self, kid, rec):
+        self.known_count[kid] = self.known_count.get(kid, 0) + 1
+        l = self.known_seen.setdefault(kid, [])
+        if len(l) < 30:
+            l.append(rec)
 
     def spec_violations(self):
         out = []
@@ -314,31 +321,53 @@ def run(ctx):
     NP = 4 if ctx.quick else 5
     NS = 3
     # (i) regex text: print_regex (tr (parse p)) = pattern_to_regex_str p, all patterns up to NP, extglob on/off
-    pats = list(all_patterns(NP))
-    re_cases = [[o, p] for p in pats for o in ("e", "n")]
-    impl = ctx.impl("glob_re", re_cases)
-    model = ctx.model("glob_re", re_cases)
+    # (ii) exhaustive matching: all patterns up to NP x all subjects up to NS over SAL   (in batches, memory-bounded)
+    strings = all_strings(SAL, NS)
     text_mism = 0
     add_missing_changed = 0
-    for c, il, ml in zip(re_cases, impl, model):
-        mf = ml.split(" ")
-        if il != mf[0]:
-            text_mism += 1
-            if len(V.mism) < 50:
-                V.mism.append({"what": "glob_re", "opts": c[0], "pattern": c[1], "code": dec1(il), "model": dec1(mf[0])})
-        if len(mf) > 1 and mf[1] == "31":
-            add_missing_changed += 1
-    notes["regex_text_cases"] = len(re_cases)
+    n_pats = 0
+    nontriv = 0
+    evals = 0
+    m_sample = []
+    batch = []
+
+    def flush(batch):
+        nonlocal text_mism, add_missing_changed, evals
+        re_cases = [[o, p] for p in batch for o in ("e", "n")]
+        impl = ctx.impl("glob_re", re_cases)
+        model = ctx.model("glob_re", re_cases)
+        for c, il, ml in zip(re_cases, impl, model):
+            mf = ml.split(" ")
+            if il != mf[0]:
+                text_mism += 1
+                if len(V.mism) < 50:
+                    V.mism.append({"what": "glob_re", "opts": c[0], "pattern": c[1], "code": dec1(il), "model": dec1(mf[0])})
+            if len(mf) > 1 and mf[1] == "31":
+                add_missing_changed += 1
+        evals += len(re_cases)
+        m_cases = [[o, p, SAL, str(NS)] for p in batch for o in ("e", "n")]
+        run_match(ctx, V, "glob_m", m_cases, lambda c: strings)
+        V.settle(use_bash=True)
+        k = 6000 if ctx.quick else 1500
+        if len(m_cases) > k:
+            m_sample.extend(m_cases[i] for i in rng.sample(range(len(m_cases)), k))
+        else:
+            m_sample.extend(m_cases)
+    for p in all_patterns(NP):
+        n_pats += 1
+        if any(ch in p for ch in "*?[\\("):
+            nontriv += 1
+        batch.append(p)
+        if len(batch) >= 70000:
+            flush(batch)
+            batch = []
+    if batch:
+        flush(batch)
+    m_cases = m_sample
+    notes["regex_text_cases"] = 2 * n_pats
     notes["regex_text_mismatches"] = text_mism
     notes["add_missing_escape_chars_changes_text_on"] = add_missing_changed
-    evals = len(re_cases)
-    T.mark("regex_text")
-    # (ii) exhaustive matching: all patterns up to NP x all subjects up to NS over SAL
-    strings = all_strings(SAL, NS)
-    m_cases = [[o, p, SAL, str(NS)] for p in pats for o in ("e", "n")]
-    run_match(ctx, V, "glob_m", m_cases, lambda c: strings)
-    nontriv = sum(1 for p in pats if any(ch in p for ch in "*?[\\(") )
-    T.mark("exhaustive_match")
+    T.mark("regex_text_and_exhaustive_match")
     # nocasematch, smaller exhaustive set over letters of both cases
     ci_alpha = ["a", "B", "é", "É", "[", "]", "-", "!", "*", "?", "\\"]
     ci_pats = ["".join(t) for k in range(0, 4 if ctx.quick else 5) for t in itertools.product(ci_alpha, repeat=k)]
@@ -414,7 +443,7 @@ def run(ctx):
                            "code": code[j], "spec": ff[1][j]}
                     if code[j] == mf[1][j]:
                         rec["known"] = "KF-C08-cond-extglob-forced"
-                        V.known_seen.setdefault(rec["known"], []).append(rec)
+                        V.note_known(rec["known"], rec)
                     else:
                         V.unknown.append(rec)
                 V.evals += len(ss)
@@ -431,7 +460,7 @@ def run(ctx):
     V.settle(use_bash=True)
     T.mark("bash_on_candidates")
     # specification vs bash on a sample (all exhaustive patterns in the thorough tier)
-    sample = m_cases if not ctx.quick else [m_cases[i] for i in rng.sample(range(len(m_cases)), 6000)]
+    sample = m_cases if len(m_cases) <= 24000 else [m_cases[i] for i in rng.sample(range(len(m_cases)), 24000)]
     sample_model = ctx.model("glob_m", sample)
     bb = bash_bits([(c[0], c[1], "", strings) for c in sample])
     svb = V.spec_vs_bash
@@ -475,10 +504,10 @@ def run(ctx):
                 "opener); counted per distinct pattern" % (NP, NS, nrand),
         "samples": [{"opts": c[0], "pattern": c[1], "subjects": c[3:8]} for c in rcases[:3]] +
                    [{"opts": "e", "pattern": p, "subjects": "all over %r up to length %d" % (SAL, NS)} for p in ("[!a-]b", "+(a|*b)")],
-        "distribution": {"exhaustive_patterns": len(pats), "subjects_per_pattern": len(strings),
+        "distribution": {"exhaustive_patterns": n_pats, "subjects_per_pattern": len(strings),
                          "nocase_patterns": len(ci_pats), "random_patterns": len(rcases), "e2e_cases": len(e2e),
                          "pathname_cases": fs["evaluations"],
-                         "known_finding_hits": {k: len(v) for k, v in V.known_seen.items()}},
+                         "known_finding_hits": dict(V.known_count)},
         "extraction_crosscheck": {"cases": len(xs), "agree": len(xs) - len(xbad)},
         "spec_vs_bash": svb,
         "notes": notes,
@@ -565,7 +594,7 @@ def run_fs(ctx, V):
                     V.bash_disagree.append(rec)
             elif sorted(code) == sorted(sw) and "/" in c[1]:
                 rec["known"] = KF_SORT
-                V.known_seen.setdefault(KF_SORT, []).append(rec)
+                V.note_known(KF_SORT, rec)
             else:
                 flags = None
                 # matching-level classes apply to pathname expansion too: ask the runner for the class flags of each component
@@ -586,7 +615,7 @@ def run_fs(ctx, V):
                         kid = KFS[kk]
             if kid:
                 r["known"] = kid
-                V.known_seen.setdefault(kid, []).append(r)
+                V.note_known(kid, r)
             else:
                 V.unknown.append(r)
     return {"evaluations": len(cases), "distinct_nontrivial": len(nontriv),
